@@ -50,8 +50,7 @@ func mutate(s core.Source, o *model.GenOpts, v model.Val) (model.Val, string) {
 		return out, "item>" + note
 	case choice == 1: // add one element at the end
 		if assoc {
-			key := model.VStr(fmt.Sprintf("new%d", n))
-			out.Pairs = append(out.Pairs, model.Pair{Key: key, Value: model.GenLeaf(s, o)})
+			out.Pairs = append(out.Pairs, model.Pair{Key: freshKey(out.Pairs), Value: model.GenLeaf(s, o)})
 		} else {
 			out.Items = append(out.Items, model.GenLeaf(s, o))
 		}
@@ -73,7 +72,7 @@ func mutate(s core.Source, o *model.GenOpts, v model.Val) (model.Val, string) {
 		}
 	case choice == 4 && assoc && n > 0: // rename one key
 		k := s.Choose(n, "child")
-		out.Pairs[k].Key = model.VStr(fmt.Sprintf("renamed%d", k))
+		out.Pairs[k].Key = model.VStr(fmt.Sprintf("renamed%d-%d", k, len(fmt.Sprint(out.Pairs))))
 		return out, "rename-key"
 	case choice == 5 && v.K == model.Coll && !assoc: // change the collection kind
 		kinds := []string{"Array", "List", "Stack", "Queue", "Set"}
@@ -85,11 +84,27 @@ func mutate(s core.Source, o *model.GenOpts, v model.Val) (model.Val, string) {
 	}
 	// fall back: add
 	if assoc {
-		out.Pairs = append(out.Pairs, model.Pair{Key: model.VStr(fmt.Sprintf("new%d", n)), Value: model.VInt(7)})
+		out.Pairs = append(out.Pairs, model.Pair{Key: freshKey(out.Pairs), Value: model.VInt(7)})
 	} else {
 		out.Items = append(out.Items, model.VInt(7))
 	}
 	return out, "add"
+}
+
+// freshKey returns a key that none of the pairs uses (an abstract map never lists a key twice).
+func freshKey(pairs []model.Pair) model.Val {
+	for k := len(pairs); ; k++ {
+		key := model.VStr(fmt.Sprintf("new%d", k))
+		used := false
+		for _, p := range pairs {
+			if model.Eq(p.Key, key) {
+				used = true
+			}
+		}
+		if !used {
+			return key
+		}
+	}
 }
 
 func genPool(forCompare bool) func(core.Source) poolCase {
@@ -152,6 +167,15 @@ func reversedInsertion(v model.Val) model.Val {
 	}
 	for i := len(v.Pairs) - 1; i >= 0; i-- {
 		p := v.Pairs[i]
+		overridden := false
+		for _, later := range v.Pairs[i+1:] {
+			if model.Eq(later.Key, p.Key) {
+				overridden = true // a later pair with the same key wins when the value is built
+			}
+		}
+		if overridden {
+			continue
+		}
 		q := model.Pair{Key: p.Key, Value: reversedInsertion(p.Value)}
 		if v.K == model.GoMap || (v.K == model.Coll && v.CK == "Map") {
 			out.Pairs = append(out.Pairs, q)
